@@ -471,7 +471,9 @@ def minimise_history(prop, v, verif_seed, tier, budget_s):
     fin = run_forked(_exec_sequence, prop.ID, hist + [last], sig)
     if fin is None:
         return None
-    return {"plan": v["plan"], "choices": fin["choices"], "kind": fin["kind"], "sig": sig, "detail": fin["detail"], "digest": fin["digest"], "tried": tried,
+    # the replay must execute the last run with exactly the choice source it had here: the recorded log if the property
+    # records one, else what it was given (None = the plan's own PRNG; an empty list would mean "never switch")
+    return {"plan": v["plan"], "choices": fin["choices"] or last[1], "kind": fin["kind"], "sig": sig, "detail": fin["detail"], "digest": fin["digest"], "tried": tried,
             "history": [{"plan": p, "choices": c} for p, c in hist]}
 
 
@@ -651,7 +653,7 @@ def check(prop_id, tier, verif_seed):
             m = run_forked(minimise, prop, v, cfg.get("minimise_s", 60))
             if m is None or run_forked(_exec_sequence, prop.ID, [(m["plan"], m["choices"] or None)], sig) is None:
                 # the minimiser's candidates share one process; if state they left behind misled it, keep the original run
-                m = {"plan": v["plan"], "choices": alone["choices"], "kind": alone["kind"], "sig": sig, "detail": alone["detail"],
+                m = {"plan": v["plan"], "choices": alone["choices"] or (v["choices"] or None), "kind": alone["kind"], "sig": sig, "detail": alone["detail"],
                      "digest": alone["digest"], "tried": 1}
         if m is None:
             # not reproducible alone: does it need the runs that came before it in its process?
